@@ -37,7 +37,7 @@ func faultyGen(o GenOpt) func(r *Rng) (string, *HistInput) {
 
 func init() {
 	base := GenOpt{MinStates: 2, MaxStates: 8, AutoPct: 25, MultiPct: 25, MinCalls: 1,
-		MaxCalls: 30, Health: true, Checks: true, AddErr: true}
+		MaxCalls: 30, Health: true, Checks: true, AddErr: true, SuffixPct: 20}
 
 	register("C03", func(c *Ctx) error {
 		veto := base
